@@ -1757,6 +1757,10 @@ impl<F> FnGraph<F> {
             .map(RwLock::new)
             .collect::<Vec<_>>();
         let fn_mut_refs = &fn_mut_refs;
+
+        if graph_structure.node_count() == 0 {
+            fn_done_tx.write().await.take();
+        }
         let scheduler = async move {
             let result_tx_ref = &result_tx;
 
